@@ -182,6 +182,115 @@ def _callbacks(cls_node):
     return out
 
 
+def _callback_returns(ci, cls_name, name):
+    """IR (sa.valueflow) of every value the transformer class `cls_name` (callbacks inherited through its bases) returns for
+    callback `name`, as a function of the children parameter; private helper methods of the transformer classes are inlined.
+    -> (callback node | None, children parameter name | None, [IR, ...])"""
+    from ..valueflow import Flow, simp
+    order = []
+    todo = [cls_name]
+    while todo:
+        c = todo.pop(0)
+        if c in order or c not in ci.nested:
+            continue
+        order.append(c)
+        todo.extend(ast.unparse(b).split(".")[-1] for b in ci.nested[c].bases)
+    cb = None
+    for c in order:
+        cbs = _callbacks(ci.nested[c])
+        if name in cbs:
+            cb = cbs[name]
+            break
+    if cb is None:
+        return None, None, []
+    if isinstance(cb, ast.Lambda):
+        fn = ast.FunctionDef(name=name, args=cb.args, body=[ast.Return(value=cb.body)], decorator_list=[], returns=None, type_comment=None)
+        fn.type_params = []
+        ast.fix_missing_locations(ast.copy_location(fn, cb))
+    elif isinstance(cb, ast.FunctionDef):
+        fn = cb
+    else:
+        return cb, None, []
+    arg = fn.args.args[1].arg if len(fn.args.args) > 1 else None
+
+    def resolver(n):
+        for c in order:
+            for st in ci.nested[c].body:
+                if isinstance(st, ast.FunctionDef) and st.name == n and st is not fn:
+                    return st
+        return None
+    fl = Flow(fn, CF, resolver=resolver)
+    return cb, arg, [simp(f.value) for f in fl.facts if f.kind == "return" and f.value is not None]
+
+
+def _decompose(v, arg):
+    """`prefix + sep.join(children).replace(a1, b1)...replace(an, bn) + suffix`  ->  (prefix, sep, [(a1, b1), ...], suffix); None when
+    the value is not of that shape (whatever the spelling: f-string, +, format, chained or stepwise replace, a joining helper)."""
+    pre = post = ""
+    if v[0] == "fstr":
+        parts = list(v[1])
+        if parts and parts[0][0] == "const":
+            pre = parts.pop(0)[1]
+        if parts and parts[-1][0] == "const":
+            post = parts.pop()[1]
+        if len(parts) != 1 or parts[0][0] != "fmt" or parts[0][2] is not None or parts[0][3] != -1:
+            return None
+        v = parts[0][1]
+    reps = []
+    while v[0] == "meth" and v[2] == "replace" and len(v[3]) == 2 and not v[4] and all(a[0] == "const" and isinstance(a[1], str) for a in v[3]):
+        reps.insert(0, (v[3][0][1], v[3][1][1]))
+        v = v[1]
+    if v[0] == "join" and v[1][0] == "const" and isinstance(v[1][1], str) and v[2] == ("param", arg):
+        return pre, v[1][1], reps, post
+    return None
+
+
+def _selects_children(v, arg):
+    """does the value pick / re-order individual children (children[i], children[a:b], reversed(children))?"""
+    from ..valueflow import walk
+    for x in walk(v):
+        if isinstance(x, tuple) and len(x) >= 2 and x[0] in ("item", "sub", "slice") and x[1] == ("param", arg):
+            return True
+        if isinstance(x, tuple) and x[0] == "call" and x[1] in (("global", "reversed"), ("global", "sorted")) and x[2] and x[2][0] == ("param", arg):
+            return True
+    return False
+
+
+def _callback_is(ctx, ci, name, want, key, good, wrong):
+    """The C callback `name` returns, on every path, prefix + sep.join(children) + replacements + suffix as `want` says
+    (want = (prefix, sep, replacements as a set, suffix))."""
+    from ..valueflow import show
+    cb, arg, rets = _callback_returns(ci, "CExpression", name)
+    where = (CF, getattr(cb, "lineno", 0))
+    src = " ".join(ast.unparse(cb).split())[:140] if cb is not None else "missing"
+    if cb is None:
+        ctx.bad("R2", key, where, wrong, expected=_want_text(want), found="missing")
+        return
+    if not rets:
+        ctx.unrec("R2", key, where, f"cannot reconstruct what the callback `{name}` returns: {src}")
+        return
+    verdicts = []
+    for v in rets:
+        d = _decompose(v, arg)
+        if d is not None:
+            verdicts.append("ok" if (d[0], d[1], frozenset(d[2]), d[3]) == (want[0], want[1], frozenset(want[2]), want[3]) and len(d[2]) == len(want[2]) else "wrong")
+        elif _selects_children(v, arg) or v[0] == "const":
+            verdicts.append("wrong")
+        else:
+            verdicts.append("unknown")
+    if "wrong" in verdicts:
+        ctx.bad("R2", key, where, wrong, expected=_want_text(want), found=src)
+    elif "unknown" in verdicts:
+        ctx.unrec("R2", key, where, f"the value returned by `{name}` is not recognised as a concatenation of its children: " + "; ".join(show(v)[:80] for v in rets))
+    else:
+        ctx.ok("R2", key, where, good)
+
+
+def _want_text(want):
+    pre, sep, reps, post = want
+    return (f"{pre!r} + " if pre else "") + f"{sep!r}.join(children)" + "".join(f".replace({a!r}, {b!r})" for a, b in reps) + (f" + {post!r}" if post else "")
+
+
 def _children_used(cb):
     """Which children of its argument a callback returns: -> (set of constant indexes, form)
     form: 'single' ((x,) = x; return x.value -- exactly one child or an error), 'join' (all joined), 'indexed', 'unrecognised'"""
@@ -234,15 +343,11 @@ def _r2(ctx, pkg, ci, gr):
             n += 1
             ctx.check(r in tr[other], "R2", f"{gname}:{r} has a {other} callback", (CF, 0), f"rule `{r}` of {gname} is handled by the {other} transformer")
     ctx.floor("R2", "grammar rules", n, 16)
-    # purity of the shared callbacks as seen by the C transformer
+    # purity of the shared callbacks as seen by the C transformer (decided on the value the callback returns, not on its spelling)
     for name, sep in PURE_JOIN_OK.items():
-        cb = tr["c"].get(name)
-        ok = isinstance(cb, ast.Lambda) and " ".join(ast.unparse(cb.body).split()) in (f"{sep.replace(chr(34), chr(39))}.join({cb.args.args[1].arg})",)
-        ctx.check(ok, "R2", f"CExpression.{name} is a pure join", (CF, getattr(cb, "lineno", 0)),
-                  f"`{name}` concatenates all of its children in order" if ok else
-                  f"the C callback `{name}` is not the plain concatenation of its children: tokens (e.g. parentheses) can be dropped or re-ordered, changing the value of the expression "
-                  "(x/(a/b) -> x/a/b)",
-                  expected=f"lambda self, x: {sep}.join(x)", found=" ".join(ast.unparse(cb).split())[:120] if cb is not None else "missing")
+        _callback_is(ctx, ci, name, ("", ast.literal_eval(sep), [], ""), f"CExpression.{name} is a pure join", f"`{name}` concatenates all of its children in order",
+                     f"the C callback `{name}` is not the plain concatenation of its children: tokens (e.g. parentheses) can be dropped or re-ordered, changing the value of the expression "
+                     "(x/(a/b) -> x/a/b)")
     # number literals: the callback must hand over every token of the literal, and every exponent letter the grammar
     # accepts must be one C understands (the callbacks copy the letter)
     for gname, other in (("fgrammar", "c"), ("cgrammar", "fortran")):
@@ -279,16 +384,12 @@ def _r2(ctx, pkg, ci, gr):
             bad = sorted(x for x in letters if x not in ("e", "E"))
             ctx.check(not bad, "R2", f"{gname}:exponent letters", (CF, 0), "the exponent letters of the grammar are C's (e/E)" if not bad else
                       f"the grammar accepts the exponent letter(s) {bad}, which no callback turns into C's `e`", expected="['E', 'e']", found=str(sorted(letters)))
-    cp = tr["c"].get("power")
-    src = ast.unparse(cp) if cp is not None else ""
-    ctx.check("pow(" in src and "replace('**', ', ')" in src, "R2", "CExpression.power", (CF, getattr(cp, "lineno", 0)), "a**b becomes pow(a, b): no `**` survives in C output", found=src[:100])
-    lv = tr["c"].get("listvar")
-    src = ast.unparse(lv) if lv is not None else ""
-    ctx.check(all(x in src for x in ("replace('(', '[')", "replace(')', ']')", "replace('n', 'y')")), "R2", "CExpression.listvar", (CF, getattr(lv, "lineno", 0)),
-              "n(idx_X) becomes y[IDX_X]", found=src[:120])
-    ix = tr["c"].get("index")
-    src = ast.unparse(ix) if ix is not None else ""
-    ctx.check("IDX" in src and "join" in src, "R2", "CExpression.index", (CF, getattr(ix, "lineno", 0)), "idx_X becomes IDX_X", found=src[:80])
+    _callback_is(ctx, ci, "power", ("pow(", "", [("**", ", ")], ")"), "CExpression.power", "a**b becomes pow(a, b): no `**` survives in C output",
+                 "the C callback `power` does not turn `a**b` into pow(a, b): `**` (not a C operator) survives or the operands are altered")
+    # the three single-character replacements do not feed each other ( '(' ')' 'n' are not produced by any of them ): any order
+    _callback_is(ctx, ci, "listvar", ("", "", [("(", "["), (")", "]"), ("n", "y")], ""), "CExpression.listvar", "n(idx_X) becomes y[IDX_X]",
+                 "the C callback `listvar` does not turn n(idx_X) into y[IDX_X]")
+    _callback_is(ctx, ci, "index", ("IDX", "", [], ""), "CExpression.index", "idx_X becomes IDX_X", "the C callback `index` does not turn idx_X into IDX_X")
 
 
 def _r3(ctx, pkg):
@@ -373,5 +474,10 @@ MUTANTS = [
     {"name": "listvar-keeps-parentheses", "file": CF, "old": '            .replace("(", "[")\n            .replace(")", "]")\n            .replace("n", "y")', "new": '            .replace("n", "y")', "rules": ["R2"]},
 ]
 BENIGN = [
+    {"name": "c-power-by-concatenation-and-helper", "edits": [
+        {"file": CF, "old": "        power = lambda self, p: f\"pow({''.join(p).replace('**', ', ')})\"\n", "new": "        def power(self, parts):\n            arguments = self._glue(parts).replace(\"**\", \", \")\n            return \"pow(\" + arguments + \")\"\n"},
+        {"file": CF, "old": "    class Expression(Transformer):\n", "new": "    class Expression(Transformer):\n        @staticmethod\n        def _glue(children):\n            return \"\".join(children)\n\n"}]},
+    {"name": "c-listvar-stepwise-other-order", "file": CF, "old": '            .replace("(", "[")\n            .replace(")", "]")\n            .replace("n", "y")', "new": '            .replace("n", "y")\n            .replace(")", "]")\n            .replace("(", "[")'},
+    {"name": "atom-as-def", "file": CF, "old": '        atom = lambda self, a: "".join(a)', "new": '        def atom(self, parts):\n            text = "".join(parts)\n            return text'},
     {"name": "callback-arg-renamed", "file": CF, "old": '        atom = lambda self, a: "".join(a)', "new": '        atom = lambda self, parts: "".join(parts)'},
 ]
